@@ -178,7 +178,7 @@ example : run (fun (o : Nat × String) => o.1) (fun (_ : Nat) (o : Nat × String
     [.call 0 (7, "2-D result")] (.call 0 (7, "3-D result")) = some "2-D result" := by decide
 example : run (fun (o : Nat × String) => o.1) (fun (_ : Nat) (o : Nat × String) => o.2)
     [.call 0 (7, "2-D result"), .clear] (.call 0 (7, "3-D result")) = some "3-D result" := by decide
-example : (leaks Gen.identity).length = 5 := by decide
+example : (leaks Gen.identity).length = 3 := by decide
 example : canon id ["b", "a", "b", "c"] = canon id ["c", "b", "a"] := by decide
 
 end Sympde.Memo
